@@ -28,6 +28,7 @@ def main():
 
     for it in items:
         emit({'start': it['idx']})
+        vf.CURRENT = {'idx': it['idx'], 'emit': emit, 'out': out}
         try:
             res = mod.run_case(it['case'])
         except BaseException as e:  # noqa - harness failure = inconclusive, never a verdict
